@@ -8,6 +8,7 @@ import (
 	"math/rand"
 	"os"
 	"strconv"
+	"sync"
 
 	"github.com/PowerDNS/lightningstream/lmdbenv"
 	"github.com/PowerDNS/lmdb-go/lmdb"
@@ -65,6 +66,7 @@ type Mismatch struct {
 
 // Result is the common result document.
 type Result struct {
+	mu sync.Mutex
 	Evaluations int                    `json:"evaluations"`
 	Distinct    int                    `json:"distinct"`
 	Traces      int                    `json:"traces"`
@@ -80,6 +82,8 @@ func NewResult() *Result {
 }
 
 func (r *Result) Bad(c interface{}, sig interface{}, format string, a ...interface{}) {
+	r.mu.Lock()
+	defer r.mu.Unlock()
 	sk, _ := json.Marshal(sig)
 	if r.SigCounts == nil {
 		r.SigCounts = map[string]int{}
@@ -92,7 +96,24 @@ func (r *Result) Bad(c interface{}, sig interface{}, format string, a ...interfa
 	r.Counters["mismatches"]++
 }
 
+// Add adds to the counters under the lock.
+func (r *Result) Add(evals, distinct, traces int) {
+	r.mu.Lock()
+	r.Evaluations += evals
+	r.Distinct += distinct
+	r.Traces += traces
+	r.mu.Unlock()
+}
+
+func (r *Result) Count(name string, n int) {
+	r.mu.Lock()
+	r.Counters[name] += n
+	r.mu.Unlock()
+}
+
 func (r *Result) Sample(s interface{}) {
+	r.mu.Lock()
+	defer r.mu.Unlock()
 	if len(r.Samples) < 5 {
 		r.Samples = append(r.Samples, s)
 	}
@@ -124,3 +145,26 @@ func CloseEnv(env *lmdb.Env, dir string) {
 
 func U32(v uint32) []byte { b := make([]byte, 4); binary.LittleEndian.PutUint32(b, v); return b }
 func U64(v uint64) []byte { b := make([]byte, 8); binary.LittleEndian.PutUint64(b, v); return b }
+
+// ParallelFor runs f(0..n-1) on up to workers goroutines.
+func ParallelFor(n, workers int, f func(i int)) {
+	if w, err := strconv.Atoi(os.Getenv("VERIF_WORKERS")); err == nil && w > 0 {
+		workers = w
+	}
+	ch := make(chan int)
+	var wg sync.WaitGroup
+	for w := 0; w < workers; w++ {
+		wg.Add(1)
+		go func() {
+			defer wg.Done()
+			for i := range ch {
+				f(i)
+			}
+		}()
+	}
+	for i := 0; i < n; i++ {
+		ch <- i
+	}
+	close(ch)
+	wg.Wait()
+}
